@@ -3,6 +3,9 @@ def compress_settings(settings):
     scenario_managers = dict[str, dict[str, dict[str, dict[str, [float]]]]]()
     # the step times are kept: a value is stored together with the position of its step in this list
     steps = list(settings.keys())
+    # dictionaries that hold no value ({"manager": {}}, {"manager": {"scenario": {}}}, ...) have no column:
+    # they are kept as [index, path] so that the settings log is restored exactly
+    empty = []
 
     for index, step in enumerate(steps):
         # loop over all scenario managers in the step
@@ -11,6 +14,8 @@ def compress_settings(settings):
             
             if not scenario_manager_name in scenario_managers:
                 scenario_managers[scenario_manager_name] = dict()
+            if len(scenario_manager) == 0:
+                empty.append([index, [scenario_manager_name]])
             
             # loop over all scenarios in the current scenario manager for the current step
             for scenario in scenario_manager:
@@ -18,12 +23,16 @@ def compress_settings(settings):
                 if not scenario in scenario_managers[scenario_manager_name]:
                     scenario_managers[scenario_manager_name][scenario] = dict()
                 current_scenario_transformed = scenario_managers[scenario_manager_name][scenario]
+                if len(scenario_manager[scenario]) == 0:
+                    empty.append([index, [scenario_manager_name, scenario]])
                 
                 # loop over all value types in the current scenario in the current scenario manager for the current step.
                 # a value type might for example be "constants"
                 for value_type in scenario_manager[scenario]:
                     if not value_type in current_scenario_transformed:
                         current_scenario_transformed[value_type] = dict()
+                    if len(scenario_manager[scenario][value_type]) == 0:
+                        empty.append([index, [scenario_manager_name, scenario, value_type]])
                     
                     # add the values in a flattened format 
                     for constant in scenario_manager[scenario][value_type]:
@@ -32,7 +41,7 @@ def compress_settings(settings):
                             current_scenario_transformed[value_type][constant] = [[index, constant_value]]
                         else:
                             current_scenario_transformed[value_type][constant].append([index, constant_value])
-    return {"steps": steps, "values": scenario_managers}
+    return {"steps": steps, "values": scenario_managers, "empty": empty}
 
 
 def compress_results(results):
@@ -70,11 +79,18 @@ def decompress_settings(settings):
     #               step: scenarioManager:  scenario:    constants:   constant: value
     result = dict[str, dict[str, dict[str, dict[str, dict[str, float]]]]]()
     steps = settings["steps"]
+    settings_empty = settings.get("empty", [])
     settings = settings["values"]
 
     # every step that was taken has an entry, also those without settings
     for step in steps:
         result[step] = dict()
+
+    # dictionaries without a value (absent in states written before they were kept)
+    for index, path in settings_empty:
+        current = result[steps[index]]
+        for name in path:
+            current = current.setdefault(name, dict())
 
     for scenario_manager_name in settings.keys():
         for scenario_name in settings[scenario_manager_name]:
